@@ -27,6 +27,7 @@ class choice_point:
         self._deps = None
         self._rdeps = None
         self._prdeps = None
+        self._ideps = None
 
     @property
     def state(self):
@@ -93,7 +94,7 @@ class choice_point:
             if round and not self._internal_force_next():
                 return True
 
-            for depset_name in ("_bdeps", "_deps", "_rdeps", "_prdeps"):
+            for depset_name in ("_bdeps", "_deps", "_rdeps", "_prdeps", "_ideps"):
                 depset = getattr(self, depset_name)
                 reqs = list(self._filter_choices(depset, filterset))
                 if len(reqs) != len(depset):
@@ -112,7 +113,7 @@ class choice_point:
         self._deps = cur.depend.cnf_solutions()
         self._rdeps = cur.rdepend.cnf_solutions()
         self._prdeps = cur.pdepend.cnf_solutions()
-        self._ideps = cur.pdepend.cnf_solutions()
+        self._ideps = cur.idepend.cnf_solutions()
 
     slot = klass.alias_attr("current_pkg.slot")
     key = klass.alias_attr("current_pkg.key")
